@@ -251,7 +251,12 @@ pub fn generator_scenario(idx: usize, seed: u64, defs: usize) -> ScenarioResult 
 
 pub fn execution_scenario(batch: usize, seed: u64) -> ScenarioResult {
     let dir = runner::verif_root().join("harness-codegen");
-    let envs = [("VERIF_SEED", seed.to_string()), ("VERIF_CODEGEN_BATCH", batch.to_string()), ("CARGO_NET_OFFLINE", "true".to_owned())];
+    let envs = [
+        ("VERIF_SEED", seed.to_string()),
+        ("VERIF_CODEGEN_BATCH", batch.to_string()),
+        ("CARGO_NET_OFFLINE", "true".to_owned()),
+        ("CARGO_TARGET_DIR", runner::verif_root().join("target-codegen").to_string_lossy().into_owned()),
+    ];
     let build = Command::new("cargo").args(["build", "--offline"]).current_dir(&dir).envs(envs.iter().cloned()).output();
     let build = match build {
         Ok(b) => b,
